@@ -14,3 +14,16 @@ Definition api_ver_parse := VersionText.parse.
 Definition api_nat_succ (n : nat) : nat := S n.
 Definition api_str_len (s : string) : nat := String.length s.
 Definition api_z_succ (z : Z) : Z := Z.succ z.
+
+From Peppi Require Import Base.Outcome Base.Stream Layout.Rows Model.Ubjson Model.Start Model.Json Model.Parse Model.Reader Model.Writer.
+
+Definition api_read (skip hash : bool) (bs : list byte) := slp_read {| o_skip := skip; o_hash := hash |} bs.
+Definition api_write (g : game) := slp_write g.
+Definition api_leaves (v : version) (E : string) : list gleaf := row_leaves v E.
+Definition api_row_vals (ls : list gleaf) (r : list byte) : list N :=
+  match dec ls r with Some (vals, _) => vals | None => [] end.
+Definition api_col_names (ls : list gleaf) : list string := map lpath ls.
+Definition api_cjson_start (s : start_t) : list byte := cjson (json_start s).
+Definition api_cjson_end (e : end_t) : list byte := cjson (json_end e).
+Definition api_cjson_meta (m : utree) : list byte := cjson (jv_of_utree m).
+Definition api_game_version (g : game) : version := st_version (g_start g).
